@@ -1,6 +1,8 @@
 package main
 
 import (
+	"go/types"
+
 	"golang.org/x/tools/go/ssa"
 )
 
@@ -74,4 +76,51 @@ func c18Extra(c *Check) {
 		}
 	}
 	c.Floor("C18.R2b:connect-handoffs", n, 1)
+}
+
+// c18HandOverChannel (R3b, added after an independent seeded change was missed):
+// the mux dispatcher's "hand the connection over or close it" rests on the
+// hand-over being a rendezvous: the send on the sub-listener's accept channel
+// completes only when a handler's Accept() takes the connection, otherwise the
+// `closed` case of the same select closes it. With a buffered channel the send
+// completes with nobody receiving; if that sub-listener is closed afterwards the
+// queued connection is neither served nor closed. Structural form: every
+// channel of connections stored into a sub-listener field is made with
+// capacity 0.
+func c18HandOverChannel(c *Check) {
+	p := c.P
+	const rule = "C18.R3 the mux hands a routed connection to the sub-listener through an unbuffered channel (a rendezvous with Accept), so that a connection is either taken by a handler or closed by the dispatcher's closed-case -- never parked in a queue"
+	n := 0
+	for _, fn := range p.RepoFns {
+		if pk := fnPkg(fn); pk == nil || pk.Pkg.Path() != pMux {
+			continue
+		}
+		allInstrs(fn, func(in ssa.Instruction) {
+			st, ok := in.(*ssa.Store)
+			if !ok {
+				return
+			}
+			fa, ok := st.Addr.(*ssa.FieldAddr)
+			if !ok {
+				return
+			}
+			ch, ok := st.Val.Type().Underlying().(*types.Chan)
+			if !ok {
+				return
+			}
+			if nn := namedOf(ch.Elem()); nn == nil || nn.Obj().Name() != "Conn" {
+				return
+			}
+			mk, ok := resolve(st.Val).(*ssa.MakeChan)
+			if !ok {
+				return
+			}
+			n++
+			f := structField(fa.X.Type(), fa.Field)
+			c.Req(isConstInt(mk.Size, 0), "C18.R3:hand-over-unbuffered:"+f.Name(), rule, p.InstrPos(mk), "the connection hand-over channel "+f.Name()+" is buffered: a routed connection can sit in the queue when its sub-listener is closed and is then neither accepted nor closed")
+		})
+	}
+	if n == 0 {
+		c.Notes = append(c.Notes, "C18.R3 hand-over-unbuffered: no chan net.Conn field is made in proxymux on this tree")
+	}
 }
